@@ -378,7 +378,7 @@ Inductive case :=
 (* ParsePathPattern(pattern): None = error; else NumVariants(), the raw expansions (the render tree's own Render/NextVariant),
    the rendered variants in RenderAllVariants order with the components of each, and for each path:
    PathPatternMatches(pattern, path) and PathPatternMatches(variant, path) per variant.
-   When the reported count is not in 1..2000 nothing is enumerated (empty lists). *)
+   When the reported count is not in 1..1000 nothing is enumerated (empty lists). *)
 | CPat (pattern : bytes)
        (obs : option (Z * list bytes * list (bytes * list comp) * list (bytes * bool * list bool)))
 (* variants all matching `path`, given as (variant string, components with the regex submatch of each on the path);
@@ -401,7 +401,7 @@ Definition mismatch (c : case) : bool :=
       | None, None => false
       | Some t, Some (n, raws, vars, _) =>
           negb (n =? num_variants64 t)%Z
-          || (if (0 <? n)%Z && (n <=? 2000)%Z      (* `if`, not andb: the expansion must not be computed for a wrapped count *)
+          || (if (0 <? n)%Z && (n <=? 1000)%Z      (* `if`, not andb: the expansion must not be computed for a wrapped count *)
               then (negb (bl_eqb (expand t) raws)
                   || match all_some (map components raws) with
                      | Some css => negb (bl_eqb (map variant_string css) (map fst vars))
@@ -425,7 +425,7 @@ Definition mismatch (c : case) : bool :=
   end.
 
 (* the property on the observed behaviour, without the model functions:
-   CPat: the reported count equals the number of enumerated expansions (the driver stops enumerating at 2001) and of
+   CPat: the reported count equals the number of enumerated expansions (the driver stops enumerating at 1001) and of
    rendered variants, and is at most 1000; for every path the original pattern matches iff some rendered variant matches.
    CPrec: every permutation selects the same variant; Compare is sign-antisymmetric and 0 only between equal variants. *)
 Definition monitor_fail (c : case) : bool :=
@@ -433,7 +433,7 @@ Definition monitor_fail (c : case) : bool :=
   | CPat _ None => false
   | CPat _ (Some (n, raws, vars, paths)) =>
       negb (n =? Z.of_nat (length raws))%Z || (1000 <? n)%Z
-      || (if (0 <? n)%Z && (n <=? 2000)%Z then negb (n =? Z.of_nat (length vars))%Z else false)
+      || (if (0 <? n)%Z && (n <=? 1000)%Z then negb (n =? Z.of_nat (length vars))%Z else false)
       || existsb (fun pm => match pm with (_, orig, vm) => negb (Bool.eqb orig (existsb (fun b => b) vm)) end) paths
   | CPrec _ vs cmps perms =>
       let k := length vs in
